@@ -302,7 +302,23 @@ def cond_roles(e):
                     and not isinstance(parent(e, stmt_of(e, w, n)), ast.For):
                 S = _attr_of_self(n.func.value, selfn)
     if not (X and W and S) or len({X, W, S}) != 3:
-        raise AnalysisError(f"Condition.wait: semaphore roles not identified (S={S}, W={W}, X={X})")
+        # fall back to notify(): the semaphore it releases is X, the one it
+        # acquires blockingly is W, the one it probes in its `if` is S
+        nf = _m(e, "Condition", "notify")
+        sn = nf.params[0]
+        X2 = W2 = S2 = None
+        for n in func_nodes(nf):
+            if isinstance(n, ast.Call) and isinstance(n.func, ast.Attribute) and _attr_of_self(n.func.value, sn):
+                who = _attr_of_self(n.func.value, sn)
+                if n.func.attr == "release":
+                    X2 = who
+                elif n.func.attr == "acquire" and not e.is_nonblocking(n):
+                    W2 = who
+            if isinstance(n, ast.If) and isinstance(n.test, ast.Call) and isinstance(n.test.func, ast.Attribute) and n.test.func.attr == "acquire":
+                S2 = _attr_of_self(n.test.func.value, sn)
+        if not (X2 and W2 and S2) or len({X2, W2, S2}) != 3:
+            raise AnalysisError(f"Condition: semaphore roles not identified (S={S}/{S2}, W={W}/{W2}, X={X}/{X2})")
+        return {"S": S2, "W": W2, "X": X2}, tr
     return {"S": S, "W": W, "X": X}, tr
 
 
